@@ -1,0 +1,16 @@
+//! Verification hooks (feature `salsa_verif`, off by default).
+//!
+//! Read-only accessors used by the deterministic-simulation harness. Nothing in this module
+//! is reachable, and nothing else in the crate changes, unless the feature is enabled.
+
+use crate::{IngredientIndex, Revision};
+
+/// Numeric value of an ingredient index (for correlating events with ingredients).
+pub fn ingredient_index_as_u32(index: IngredientIndex) -> u32 {
+    index.as_u32()
+}
+
+/// Numeric value of a revision.
+pub fn revision_as_usize(revision: Revision) -> usize {
+    revision.as_usize()
+}
